@@ -131,7 +131,23 @@ def make_packet(c, l4, ipv6):
     off = 16 if l4 == "tcp" else 6
     field = be(seg[off:off + 2])            # dpkt: tcp.sum / udp.sum is the checksum field of the captured segment
     l4rec = c.record("dpkt." + l4, sum=field, __bytes__=seg)
-    ip = c.record("dpkt.ip6" if ipv6 else "dpkt.ip", **({"nxt": proto} if ipv6 else {"p": proto}))
+    ip = c.record("dpkt.ip6" if ipv6 else "dpkt.ip", data=l4rec, **({"nxt": proto} if ipv6 else {"p": proto, "sum": c.int("ip_header_checksum", 0, 65535)}))
+    if c.native:
+        c.set(ip, "data", l4rec)     # (records have no dpkt behaviour natively: a model that needs dpkt's write-back does not replay)
+        ip = c.record("dpkt.ip6" if ipv6 else "dpkt.ip", data=l4rec, __bytes__=b"\x45" + bytes(19), **({"nxt": proto} if ipv6 else {"p": proto, "sum": 0}))
+    if not c.native:
+        # assumed contract of dpkt 1.9.8 (read from its source): serialising an IP / IP6 object is NOT pure - when the transport
+        # checksum field of the parsed segment is zero (and, for IPv4, the header checksum is zero too) __bytes__ computes the
+        # correct checksum and WRITES IT BACK into ip.data.sum, which is the very object Packet exposes as .tcp / .udp
+        def ip_bytes(I, o):
+            d = o.attrs["data"]
+            may = d.attrs["sum"] == 0
+            if not ipv6:
+                may = band(may, o.attrs["sum"] == 0)
+            if I.truth(may):
+                d.attrs["sum"] = c.fresh_int("checksum_written_back_by_dpkt", 0, 65535)
+            return c.bytes_fresh("ip_packet_bytes", 20, None)
+        c.lib_model_raw("dpkt.ip6.__bytes__" if ipv6 else "dpkt.ip.__bytes__", ip_bytes)
     attrs = dict(ipv6_packet=ipv6, ip_src=src, ip_dst=dst, ip=ip)
     attrs[l4] = l4rec
     pkt = c.obj("tlexport.packet.Packet", **attrs)
